@@ -130,6 +130,42 @@ def render(case: dict) -> str:
     raise MachineryError(f"unknown place {place}")
 
 
+SKELETON_IMPORT = {"A1": "json", "A2": "csv", "B1": "sys", "B2": "math", "C1": "os", "D1": "re", "D2": "glob"}
+
+
+def render_skeleton(case: dict) -> str:
+    """Skeleton.tla: statements (a call or a lazy import, used at once) with blank lines in front of them, at three depths."""
+    slots = case["slots"]
+
+    def stmts(names, indent):
+        out = []
+        for s in names:
+            c = slots[s]
+            if c["kind"] == "none":
+                continue
+            out += [""] * c["gap"]
+            pad = " " * indent
+            if c["kind"] == "import":
+                out += [f"{pad}import {SKELETON_IMPORT[s]}", f"{pad}print({SKELETON_IMPORT[s]}.__name__)"]
+            else:
+                out.append(f"{pad}print('{s}')")
+        return out
+    lines = ["def outer():"] + stmts(["A1", "A2"], 4) + ["    def inner():"] + stmts(["B1", "B2"], 8) + stmts(["C1"], 4)
+    lines += ["    return inner", "", ""] + stmts(["D1", "D2"], 0) + ["outer()()"]
+    return "\n".join(lines) + "\n"
+
+
+def skeleton_cases(rep: Report, t: str):
+    gaps, maxdev, lens = ("{0, 1, 3, 4}", 2, "{100}") if t == "quick" else ("{0, 1, 2, 3, 4, 6}", 3, "{60, 100}")
+    cfg = "\n".join(["CONSTANTS", '  Slots = {"A1", "A2", "B1", "B2", "C1", "D1", "D2"}', f"  Gaps = {gaps}", f"  MaxDev = {maxdev}",
+                     f"  LineLengths = {lens}", "INIT Init", "NEXT Next", "INVARIANT Dump", "CHECK_DEADLOCK FALSE", ""])
+    res = run_tlc("Skeleton", cfg, timeout_s=900, keep_stdout=False)
+    rep.add_tlc(res, "Skeleton")
+    if not res.records:
+        raise MachineryError("Skeleton: no cases")
+    return res.records
+
+
 def layout_cases(rep: Report, t: str):
     kinds = '{"triple", "triple_single", "raw_triple", "bytes_triple", "fstring_triple", "docstring", "single", "concat", "comment"}'
     feats = '{"tab", "trailing", "blanks3", "blanks2", "blank1", "long", "backslash", "hash", "crlf_escape", "indent8"}'
@@ -151,6 +187,7 @@ def isolated_stages(mods, text: str, maxlen: int):
     for name, fn in (("rmspace.format_str", main.rmspace.format_str),
                      ("fixes.fix_too_many_blank_lines", fixes.fix_too_many_blank_lines),
                      ("fixes.fix_line_lengths", lambda s: fixes.fix_line_lengths(s, max_line_length=maxlen)),
+                     ("fixes.fix_import_spacing", fixes.fix_import_spacing),
                      ("fixes.sort_imports", fixes.sort_imports)):
         try:
             out.append((name, fn(text)))
@@ -172,6 +209,16 @@ def main(argv=None) -> int:
             raise MachineryError(f"Layout renderer produced invalid Python for {c}:\n{text}")
         key = f"layout:{i}"
         meta[key] = c
+        items.append((key, text, {"max_line_length": c["len"]}))
+    skeletons = skeleton_cases(rep, t)
+    if t == "quick" and len(skeletons) > 1500:
+        skeletons = rng.sample(skeletons, 1500)
+    for i, c in enumerate(skeletons):
+        text = render_skeleton(c)
+        if not proj.valid(text):
+            raise MachineryError(f"Skeleton renderer produced invalid Python for {c}:\n{text}")
+        key = f"skeleton:{i}"
+        meta[key] = {"len": c["len"], "exact": True, "skeleton": c["slots"]}
         items.append((key, text, {"max_line_length": c["len"]}))
     corpus_items = pipecheck.standard_inputs(rep, t, rng, shapes_on=True, snippets="300" if t == "quick" else "all",
                                              stdlib=20 if t == "quick" else 200)
